@@ -658,6 +658,15 @@ func (m *Dense) Pow(a Matrix, n int) {
 		}
 		return
 	case 1:
+		if aU, trans := untransposeExtract(a); trans && aU == Matrix(m) {
+			// a is the implicit transpose of the receiver, which is
+			// allowed here but not by Copy.
+			w := getDenseWorkspace(r, r, false)
+			w.Copy(a)
+			m.Copy(w)
+			putDenseWorkspace(w)
+			return
+		}
 		m.Copy(a)
 		return
 	case 2:
